@@ -106,7 +106,7 @@ def run_property(pid, tier, seed, write_baseline=False):
                 # class, more of them than were recorded for this tier is a different violation and is reported
                 m = re.search(r'(\d+) failing', fl.get('what', ''))
                 cur = int(m.group(1)) if m else None
-                rec = (open_keys[key].get('counts') or {}).get(tier)
+                rec = (open_keys[key].get('counts') or {}).get(f'{tier}:{seed}')      # counts are comparable for one tier and seed only
                 known_counts[key] = cur
                 if cur is None or rec is None or cur <= rec:
                     reported_findings.append(key)
